@@ -15,6 +15,16 @@ Definition failures {C} (check : C -> bool) (cs : list C) : Z * Z * list Z :=
   let f := failures_from check 0%Z cs in
   (Z.of_nat (length cs), Z.of_nat (length f), firstn 50 f).
 
+(** like [failures], with the kinds of differing observables per failing case *)
+Fixpoint masks_from {C} (mask : C -> Z) (i : Z) (cs : list C) : list (Z * Z) :=
+  match cs with
+  | [] => []
+  | c :: r => let m := mask c in ((if (m =? 0)%Z then [] else [(i, m)]) ++ masks_from mask (i + 1)%Z r)%list
+  end.
+Definition failure_masks {C} (mask : C -> Z) (cs : list C) : Z * Z * list (Z * Z) :=
+  let f := masks_from mask 0%Z cs in
+  (Z.of_nat (length cs), Z.of_nat (length f), firstn 50 f).
+
 Definition list_eqb {A B} (eqb : A -> B -> bool) : list A -> list B -> bool :=
   fix go l1 l2 := match l1, l2 with
                   | [], [] => true
